@@ -5,14 +5,19 @@
      PathSet w m p i         i is part of model m, identifiable, and p is its path
      IndexExact w m          identifiables(m) maps p to i  <->  PathSet w m p i
      Inv04 w                 IndexExact + duplicate-free keys for every model (+ typing side invariants)
-   Hypotheses: TablesOK (facts about the specification tables), TreeFacts w (= C03's TreeInv, see
-   Tree/IndexProofsBridge.v).  Known04 = finding classes (witnesses below), Pending04 = constructors whose proof is
-   not finished: OpCopy OpCopyAt OpMove OpMoveAt OpSetItemName OpRemoveFile OpRemoveFromFile.
-   [P] C04_inv_partial, C04_history_partial, C04_reachable_partial, C04_set_item_name (one operation, given Inv05)
+   Hypotheses: TablesOK (facts about the specification tables; C04_tables_real: true of the generated tables),
+   TreeFacts w (= C03's TreeInv, see Tree/IndexProofsBridge.v).  Known04 = finding classes (witnesses below).
+   Constructors covered for Inv04 alone (C04_inv_partial): all except OpCopy OpCopyAt OpMove OpMoveAt OpSetItemName and
+   OpRemoveFile of the LAST file of a model (Pending04).  Together with Inv05 (C04_history, Properties/C05.v C45_inv):
+   additionally OpSetItemName and OpMove / OpMoveAt inside one model with an identifiable moved element (Pending45m).
+   [P] C04_inv_partial, C04_history_partial, C04_reachable_partial, C04_set_item_name (one operation, given Inv05),
+       C04_history (closed: from the empty world, refined pending list), C04_history_real [F]
+   [F] C04_tables_real
    [U] C04_lookup, C04_enumeration,
    C04_unique_paths, C04_path_concat, C04_rekey (the prefix re-keying loop of fix_identifiables). *)
 From AV Require Import Base.Bytes Base.Outcome Hash.HashModel Tree.Heap Tree.Ops Tree.Script Tree.Inv.
 From AV Require Import Tree.Index Tree.IndexProofsAssoc Tree.IndexProofs Tree.Refs Tree.IndexProofsSetName Tree.IndexProofsBridge Tree.IndexProofsTiny.
+From AV Require Import Spec.SpecReal Tree.CheckFn Tree.IndexProofsTablesReal Tree.IndexProofsClosed Tree.IndexProofsTinyMove.
 Import Tiny.
 Open Scope list_scope.
 Open Scope N_scope.
@@ -58,6 +63,31 @@ Theorem C04_reachable_partial :
   run_ops T tab_el tab_en check_fn LATEST root_attrs l empty_world = Val w' ->
   TreeFacts w' /\ Inv04 T check_fn w' /\ Inv05 T w'.
 Proof. exact C04_C05_reachable_partial. Qed.
+
+(* the closed form with the refined pending list (Pending45m: a move inside one model whose moved element is
+   identifiable is covered; remove_from_file, remove_file of a file that is not the last one are covered) *)
+Theorem C04_history :
+  forall (T : tables) (tab_el tab_en : nametab) (check_fn : N -> list N -> res bool) (LATEST : N)
+         (root_attrs : list (N * cdata)),
+  TablesOK T check_fn ->
+  forall (l : list op) (w' : world),
+  clean45m T tab_el tab_en check_fn LATEST root_attrs l empty_world = true ->
+  run_ops T tab_el tab_en check_fn LATEST root_attrs l empty_world = Val w' ->
+  TreeFacts w' /\ Inv04 T check_fn w' /\ Inv05 T w'.
+Proof. exact C04_C05_history. Qed.
+
+(* [F] the generated tables satisfy TablesOK, with the validator model of Tree/CheckFn.v (any DFA tables) *)
+Theorem C04_tables_real :
+  forall dfas : N -> option (list (list N) * list N), TablesOK RT (check_fn_model dfas).
+Proof. exact real_tables_ok. Qed.
+
+Theorem C04_history_real :
+  forall (dfas : N -> option (list (list N) * list N)) (tab_el tab_en : nametab) (LATEST : N) (root_attrs : list (N * cdata))
+         (l : list op) (w' : world),
+  clean45m RT tab_el tab_en (check_fn_model dfas) LATEST root_attrs l empty_world = true ->
+  run_ops RT tab_el tab_en (check_fn_model dfas) LATEST root_attrs l empty_world = Val w' ->
+  TreeFacts w' /\ Inv04 RT (check_fn_model dfas) w' /\ Inv05 RT w'.
+Proof. exact C04_C05_history_rt. Qed.
 
 Theorem C04_lookup :
   forall (T : tables) (check_fn : N -> list N -> res bool) (w : world) (m : N) (p : list N) (r : out (option id)) (w' : world),
@@ -108,6 +138,20 @@ Example C04_demo_world :
   (TreeFacts (wof demo) /\ Inv04 tiny tiny_check_fn (wof demo) /\ Inv05 tiny (wof demo)) /\
   idents_of (wof demo) 0 = [(BS "/A", 2); (BS "/A/S", 5); (BS "/B", 8)] /\ origins_list (wof demo) 0 = [(BS "/B", [7])].
 Proof. exact (conj demo_inv demo_content). Qed.
+
+(* remove_from_file / remove_file: /B loses its last file and is removed from the model; its entry goes, the reference to
+   it keeps its text and its referrer entry *)
+Example C04_files_demo :
+  (TreeFacts (wof files_demo) /\ Inv04 tiny tiny_check_fn (wof files_demo) /\ Inv05 tiny (wof files_demo)) /\
+  idents_of (wof files_demo) 0 = [(BS "/A", 2); (BS "/A/S", 5)] /\ origins_list (wof files_demo) 0 = [(BS "/B", [7])].
+Proof. exact files_demo_summary. Qed.
+
+(* moves: /A/S is moved into /B (paths and the text of its referrer follow); a second /A/S moved next to it becomes /B/S_1 *)
+Example C04_move_demo :
+  (TreeFacts (wof move_demo2) /\ Inv04 tiny tiny_check_fn (wof move_demo2) /\ Inv05 tiny (wof move_demo2)) /\
+  idents_of (wof move_demo2) 0 = [(BS "/A", 2); (BS "/B/T", 11); (BS "/B", 8); (BS "/B/S", 5); (BS "/B/S_1", 14)] /\
+  origins_list (wof move_demo2) 0 = [(BS "/B", [7]); (BS "/B/S", [13])].
+Proof. exact (conj move_demo2_inv move_demo2_content). Qed.
 
 (* ---------- findings: the invariant really breaks on the classes excluded by Known04 *)
 Example C04_front_refuted :
